@@ -250,7 +250,9 @@ def cov_traces(ctx, count):
                 if name == "EKF":
                     xo, Po = pp.module.EKF(model)(x, y, u, P, Q, R, **tkw)
                 elif name == "UKF":
-                    xo, Po = pp.module.UKF(model)(x, y, u, P, Q, R, k=k, **tkw)
+                    # the documented default square root given explicitly is the same filter (every other call)
+                    mkw = {"msqrt": torch.linalg.cholesky} if (it + len(ev)) % 2 else {}
+                    xo, Po = pp.module.UKF(model, **mkw)(x, y, u, P, Q, R, k=k, **tkw)
                 else:
                     xo, Po = pp.module.PF(model, particles=300)(x, y, u, P, Q, R)
             except Exception as ex:
